@@ -37,9 +37,39 @@ def sha(paths):
     return h.hexdigest()[:16]
 
 
-def spec_hash():
-    return sha(glob.glob(os.path.join(SPEC, "*.tla")) + glob.glob(os.path.join(SPEC, "*.cfg"))
-               + [os.path.join(HARN, "src", "main.rs")])
+def module_files(module_path, seen=None):
+    """the .tla files a module depends on through EXTENDS / INSTANCE (those that live in spec/)"""
+    seen = seen if seen is not None else set()
+    if module_path in seen or not os.path.exists(module_path):
+        return seen
+    seen.add(module_path)
+    txt = open(module_path).read()
+    names = []
+    for m in re.finditer(r"^\s*EXTENDS\s+(.*)$", txt, re.M):
+        names += [x.strip() for x in m.group(1).split(",")]
+    names += re.findall(r"INSTANCE\s+(\w+)", txt)
+    for n in names:
+        for d in (SPEC, os.path.join(SPEC, "mechanisms")):
+            module_files(os.path.join(d, n + ".tla"), seen)
+    return seen
+
+
+def spec_hash(module=None, cfg=None):
+    """hash of exactly the files a TLC run reads: the module closure + its cfg (+ the bundle extractor)"""
+    if module is None:
+        files = glob.glob(os.path.join(SPEC, "*.tla")) + glob.glob(os.path.join(SPEC, "mechanisms", "*.tla"))
+    else:
+        files = list(module_files(os.path.join(SPEC, module)))
+    if cfg:
+        files.append(cfg)
+    files.append(os.path.join(HARN, "src", "main.rs"))
+    return sha(files)
+
+
+def cfg_module(cfg, default):
+    first = open(cfg).readline()
+    m = re.match(r"\\\* MODULE (\S+)", first)
+    return m.group(1) if m else default
 
 
 class Lock:
@@ -79,10 +109,11 @@ def parse_tlc_summary(out):
 def run_mc(name, workers=8, timeout=3600, xmx="8g"):
     """Model-checks spec/<name>.cfg (module MC_IndexTree unless the cfg names another one).
     The result depends on the specification only, so it is cached by the hash of spec/."""
-    d = os.path.join(WORK, "mc", spec_hash())
+    cfg0 = os.path.join(SPEC, name + ".cfg")
+    d = os.path.join(WORK, "mc", spec_hash(cfg_module(cfg0, "MC_IndexTree.tla"), cfg0))
     os.makedirs(d, exist_ok=True)
-    res = os.path.join(d, name + ".json")
-    with Lock("mc-" + name):
+    res = os.path.join(d, name.replace("/", "_") + ".json")
+    with Lock("mc-" + name.replace("/", "_")):
         if os.path.exists(res):
             r = json.load(open(res))
             r["cached"] = True
@@ -93,11 +124,11 @@ def run_mc(name, workers=8, timeout=3600, xmx="8g"):
         m = re.match(r"\\\* MODULE (\S+)", first)
         if m:
             module = m.group(1)
-        meta = os.path.join(WORK, "meta-mc-" + name + "-" + str(os.getpid()))
+        meta = os.path.join(WORK, "meta-mc-" + name.replace("/", "_") + "-" + str(os.getpid()))
         t0 = time.time()
         log("TLC model checking", name, "...")
-        rc, out = sh(tlc_cmd(module, cfg, workers, meta), cwd=os.path.dirname(os.path.join(SPEC, module)) if "/" in module else SPEC,
-                     env={"JAVA_TOOL_OPTIONS": "-Xmx%s -Xss256m" % xmx}, timeout=timeout)
+        rc, out = sh(tlc_cmd(module, cfg, workers, meta), cwd=SPEC,
+                     env={"JAVA_TOOL_OPTIONS": "-Xmx%s -Xss256m -DTLA-Library=%s" % (xmx, SPEC)}, timeout=timeout)
         shutil.rmtree(meta, ignore_errors=True)
         s = parse_tlc_summary(out)
         cfgtxt = open(cfg).read()
@@ -121,7 +152,8 @@ def harness_bin(profile="debug", alt=""):
 def ensure_bundles(name, workers=10, timeout=7200):
     """TLC-generated test bundles for spec/<name>.cfg (module Gen): depend on the specification
     only, cached by spec hash. Returns (path, meta)."""
-    d = os.path.join(WORK, "bundles", spec_hash())
+    cfg0 = os.path.join(SPEC, name + ".cfg")
+    d = os.path.join(WORK, "bundles", spec_hash(cfg_module(cfg0, "Gen.tla"), cfg0))
     os.makedirs(d, exist_ok=True)
     path = os.path.join(d, name + ".ndjson.gz")
     metap = os.path.join(d, name + ".meta.json")
@@ -155,6 +187,10 @@ def ensure_bundles(name, workers=10, timeout=7200):
         if name.startswith("Gen") and n != s["distinct"]:
             raise ToolError("bundle generation for %s: %d lines but %s distinct states" % (name, n, s["distinct"]))
         os.rename(tmp, path)
+        # older generations of the same bundle set (other spec hashes) are garbage now
+        for old in glob.glob(os.path.join(WORK, "bundles", "*", name + ".*")):
+            if os.path.dirname(old) != d:
+                os.remove(old)
         m = {"config": name, "states": s["distinct"], "transitions": s["generated"], "depth": s["depth"], "lines": n,
              "wall_s": round(time.time() - t0, 1), "cached": False, "at": time.strftime("%Y-%m-%dT%H:%M:%S"),
              "constants": re.findall(r"^\s+(\w+ = \S+)\s*$", open(cfg).read(), re.M)}
@@ -329,6 +365,12 @@ class Verdict:
             rc = 1
         cov = self.cov
         cov["violating_cases_total"] = len(self.violations)
+        cov.setdefault("rule", "Cases are generated from the TLA+ specification: (reachable model state, enabled call) pairs enumerated exhaustively by TLC "
+                       "within the slot bound of the bundle configuration (each executed on the real crate), observer / pull-word / rendering / macro cases per "
+                       "reachable state, and events of seeded random histories validated by TLC. 'evaluations' counts the comparisons made for this property; "
+                       "'distinct_nontrivial' counts executed cases that are distinct by construction (TLC's states are distinct, the calls of a state form a set, "
+                       "trace events are distinct steps) and non-trivial: the call changes the projected state or is rejected, the iterator / rendering has at least "
+                       "one element beyond the start node, the literal has at least two expressions.")
         ev = {"property_id": self.prop, "tier": self.tier, "seed": SEED, "level": self.level, "coverage": cov,
               "assumptions": self.assumptions, "wall_s": round(time.time() - self.t0, 1), "violations": len(self.violations),
               "repo": REPO, "known_findings_hit": sorted(self.known_hits.keys()),
@@ -408,7 +450,7 @@ INV_PROP = {"C01_WellFormed": "C01", "C02_Acyclic": "C02", "C12_Bare": "C12", "C
             "C08_PayloadFrame": "C08", "C13_ClearIsFresh": "C13", "C13_ReserveInvisible": "C13", "ForestOK": "C01"}
 
 
-def run_traces(binary, specs, tag, record_timeout=600, tlc_timeout=3600):
+def run_traces(binary, specs, tag, record_timeout=90, tlc_timeout=3600):
     """specs: list of dict(mix=, seed=, events=, segment=, max_slots=, extra=[...])."""
     d = os.path.join(RUN, "traces-" + tag)
     os.makedirs(d, exist_ok=True)
@@ -434,7 +476,28 @@ def run_traces(binary, specs, tag, record_timeout=600, tlc_timeout=3600):
         meta = os.path.join(d, "meta-%02d" % i)
         vjobs.append((i, tlc_cmd("Trace.tla", os.path.join(SPEC, "Trace.cfg"), 1, meta), SPEC,
                       {"TRACE": s["file"], "JAVA_TOOL_OPTIONS": "-Xmx3g -Xss512m -XX:ActiveProcessorCount=2"}, tlc_timeout))
+    # C06 on the call history alone (ChurnMonitor.tla) for the generation-counter boundary runs
+    for i, s in enumerate(specs):
+        if s["mix"].startswith("boundary") and i in rec and not rec[i][2] and rec[i][0] == 0:
+            meta = os.path.join(d, "metac-%02d" % i)
+            vjobs.append(("churn-%d" % i, tlc_cmd("ChurnMonitor.tla", os.path.join(SPEC, "ChurnMonitor.cfg"), 1, meta), SPEC,
+                          {"TRACE": s["file"], "JAVA_TOOL_OPTIONS": "-Xmx3g -Xss512m -XX:ActiveProcessorCount=2"}, tlc_timeout))
     val = run_parallel(vjobs, max(2, NCPU - 2))
+    for i, s in enumerate(specs):
+        key = "churn-%d" % i
+        if key not in val:
+            continue
+        rc, out, to = val[key]
+        shutil.rmtree(os.path.join(d, "metac-%02d" % i), ignore_errors=True)
+        if to or "CHURN-DONE" not in out:
+            raise ToolError("ChurnMonitor did not complete on %s:\n%s" % (s["file"], out[-2000:]))
+        mm = re.search(r'<<"CHURN-MISMATCH", (\d+), "([^"]+)", "(.*)">>', out)
+        if mm:
+            ev = mm.group(3).replace('\\"', '"')
+            prop_, kind_ = mm.group(2).split(":", 1)
+            findings.append({"prop": prop_, "kind": "history:" + kind_,
+                             "detail": "event %s of a recorded allocation/removal history violates %s by the call history alone: %s" % (mm.group(1), mm.group(2), ev[:400]),
+                             "case": {"trace": s["file"], "event_index": int(mm.group(1)), "spec": {k: v_ for k, v_ in s.items() if k != "file"}}})
     for i, s in enumerate(specs):
         if i not in val:
             continue
@@ -445,6 +508,12 @@ def run_traces(binary, specs, tag, record_timeout=600, tlc_timeout=3600):
         m = re.search(r'"TRACE-LEN", (\d+), "DEPTH", (\d+)', out)
         mm = re.search(r'<<"TRACE-MISMATCH", (\d+), \{([^}]*)\}, "(.*)">>', out)
         t = {"file": s["file"], "mix": s["mix"], "seed": s["seed"], "events": int(m.group(1)) if m else 0, "accepted": False}
+        soft = re.findall(r'<<"TRACE-SOFT", (\d+), \{([^}]*)\}>>', out)
+        for idx_, cl in soft[:3]:
+            for c in re.findall(r'"([^"]+)"', cl):
+                prop_, kind_ = c.split(":", 1)
+                findings.append({"prop": prop_, "kind": "trace:" + kind_, "detail": "event %s of a recorded history: %s (a removed slot still reports relatives)" % (idx_, c),
+                                 "case": {"trace": s["file"], "event_index": int(idx_), "spec": {k: v_ for k, v_ in s.items() if k != "file"}}})
         if mm:
             idx = int(mm.group(1))
             clauses = re.findall(r'"([^"]+)"', mm.group(2))
@@ -465,7 +534,10 @@ def run_traces(binary, specs, tag, record_timeout=600, tlc_timeout=3600):
             # check of the specification would have caught that; report as a tool/spec problem
             raise ToolError("property %s fails on a conforming trace %s - specification inconsistency:\n%s" % (name, s["file"], out[-2500:]))
         elif m and int(m.group(2)) == int(m.group(1)) + 1 and "No error has been found" in out:
-            t["accepted"] = True
+            t["accepted"] = not soft
+            if soft:
+                t["rejected_at"] = int(soft[0][0])
+                t["clauses"] = ["C12:removed-links"]
         else:
             raise ToolError("TLC could not validate %s:\n%s" % (s["file"], out[-3000:]))
         traces.append(t)
